@@ -60,12 +60,20 @@ pub fn run_opts(definition: &str, query: &str, files: &[Vec<u8>], display_option
     let query = query.to_owned();
     let paths = files.iter().map(|c| write_temp("in", c)).collect::<Vec<_>>();
     let paths2 = paths.clone();
+    let r = run_handles(&definition, &query, move || paths2.iter().map(|p| File::open(p).unwrap()).collect(), display_options);
+    for p in paths { let _ = std::fs::remove_file(p); }
+    r
+}
+/// the same over already opened inputs (regular files, pipes, ...)
+pub fn run_handles<F: FnOnce() -> Vec<File> + std::panic::UnwindSafe>(definition: &str, query: &str, open: F, display_options: DisplayOptions) -> Outcome {
+    let definition = definition.to_owned();
+    let query = query.to_owned();
     let r = std::panic::catch_unwind(move || {
         let tables = match tables(&definition) { Ok(t) => t, Err(e) => return Outcome::Error(e) };
         let statement = match parsing::parse(&query) { Ok(s) => s, Err(e) => return Outcome::Error(format!("query rejected: {}", e)) };
         let mut executor = FileExecutor::with_output_printer(
             Arc::new(AtomicBool::new(true)),
-            paths2.iter().map(|p| File::open(p).unwrap()).collect(),
+            open(),
             display_options,
             Captured { lines: Vec::new() },
             ExecutionEngine::new(&tables, &statement)
@@ -75,8 +83,14 @@ pub fn run_opts(definition: &str, query: &str, files: &[Vec<u8>], display_option
             Err(e) => Outcome::Error(format!("{}", e)),
         }
     });
-    for p in paths { let _ = std::fs::remove_file(p); }
     match r { Ok(o) => o, Err(e) => Outcome::Panic(panic_text(e)) }
+}
+/// a pipe holding `content`, its write end closed: an input whose metadata reports no size (what `--stdin` hands to the executor)
+pub fn pipe_with(content: &[u8]) -> File {
+    let (reader, mut writer) = std::io::pipe().unwrap();
+    let content = content.to_vec();
+    std::thread::spawn(move || { use std::io::Write; let _ = writer.write_all(&content); });
+    File::from(std::os::fd::OwnedFd::from(reader))
 }
 
 /// text contents -> bytes
